@@ -166,7 +166,7 @@ def stepEv {Q : Type} (O : QOps Q) (s : Hist Q) : QEv → Hist Q
 
 inductive Op where
   | sleep0 | si (p : Nat) | sw (t : Nat) (p : Option Nat) | ri (t p : Nat)
-  | cp (p k : Nat) | cs (k : Nat) | cr (p t q : Nat)
+  | cp (p k : Nat) | cs (k : Nat) | cr (p t q : Nat) | cm (t k : Nat)
   | cr8 (s : Nat) | de (s : Nat) | st (s : Nat)
   | fi (t : Nat) | me (t : Nat) | rmi | sp (v : Rat) | bl | wk (t : Nat)
   | aq (l : Nat) | rl (l : Nat) | it
@@ -176,6 +176,7 @@ deriving Repr, Inhabited
 inductive HK where
   | step (t : Nat)        -- `Task.__step` / `Task.__wakeup` of task `t`
   | cb (k : Nat)          -- a plain callback that logs `k`
+  | bound (t k : Nat)     -- a plain callback that is a bound method of task `t` (`task.set_name`): not a step
   | reins (t q : Nat)     -- `task_reinsert(task t, q)` as a callback
 deriving Repr, Inhabited
 
@@ -248,6 +249,7 @@ def lab (w : World Q) (h : Nat) : String :=
   match w.handles[h]? with
   | some (.step t) => s!"t{t}"
   | some (.cb k) => s!"c{k}"
+  | some (.bound t k) => s!"m{t}.{k}"
   | some (.reins t q) => s!"r{t}.{q}"
   | none => "x"
 
@@ -365,6 +367,12 @@ def doOp (me : Nat) (op : Op) : M Q (String × Bool) := do
     let h ← newHandle (.cb k)
     modify fun w => { w with q := O.callPos w.q p h }
     pure ("ok", false)
+  | .cm t k =>
+    -- loop.call_soon(task_t.set_name, …): a callback bound to the task; `task_from_handle` is None for it
+    if !born w t then pure ("nop", false) else do
+      let h ← newHandle (.bound t k)
+      appendH O h
+      pure ("ok", false)
   | .cs k => do
     let h ← newHandle (.cb k)
     appendH O h
@@ -507,6 +515,7 @@ def runHandle (h : Nat) : M Q Unit := do
   let w ← get
   match w.handles[h]? with
   | some (.cb k) => logS s!"c{k}/{O.len w.q}"
+  | some (.bound t k) => logS s!"m{t}.{k}/{O.len w.q}"
   | some (.reins t p) =>
     if (← reinsertM O t p) then do
       let w ← get
